@@ -18,7 +18,7 @@ import (
 // start and end time of every call are recorded.
 type verifListScript struct {
 	mu      sync.Mutex
-	pattern []int // 0 success, 1 transport error, 2 status 500, 3 malformed JSON, 4 status 404
+	pattern []int // 0 success, 1 transport error, 2 status 500, 3 malformed JSON, 4 status 404, 5/6/7 status 500/503/401 with an empty body, 8 success with an empty body
 	starts  []time.Time
 	ends    []time.Time
 	cancel  context.CancelFunc
@@ -55,6 +55,14 @@ func (s *verifListScript) RoundTrip(r *http.Request) (*http.Response, error) {
 		return mk(200, "{not json"), nil
 	case 4:
 		return mk(404, "nope"), nil
+	case 5:
+		return mk(500, ""), nil
+	case 6:
+		return mk(503, ""), nil
+	case 7:
+		return mk(401, ""), nil
+	case 8:
+		return mk(200, ""), nil
 	}
 	return mk(200, "[]"), nil
 }
@@ -78,6 +86,8 @@ func TestVerifC08Loop(t *testing.T) {
 	patterns = append(patterns, append(fails(14, 1), 0, 1, 1, 0, 2))
 	patterns = append(patterns, []int{1, 2, 0, 3, 4, 1, 0, 0, 1, 0})
 	patterns = append(patterns, []int{0, 1, 1, 1, 0, 1, 1, 1, 1, 1, 1, 0})
+	patterns = append(patterns, []int{5, 5, 5, 6, 7, 5, 8, 6, 6, 0})
+	patterns = append(patterns, []int{2, 8, 1, 1, 8, 8, 7, 7, 7, 7})
 	nrand := 10
 	if verifThorough() {
 		nrand = 60
@@ -88,9 +98,9 @@ func TestVerifC08Loop(t *testing.T) {
 		p := make([]int, l)
 		for j := range p {
 			if rng.intn(4) == 0 {
-				p[j] = 0
+				p[j] = []int{0, 0, 8}[rng.intn(3)]
 			} else {
-				p[j] = 1 + rng.intn(4)
+				p[j] = 1 + rng.intn(7)
 			}
 		}
 		patterns = append(patterns, p)
